@@ -895,6 +895,8 @@ fn main() {
       for parts in &lists {
         // the property's domain: words separated by spaces or joined by ONE additional symbol
         if is_sym(parts[parts.len() - 1]) { continue; }
+        // `//` and `/*` open a comment in the FEEL grammar: they cannot be written inside a name
+        if parts.windows(2).any(|w| w[0] == "/" && (w[1] == "/" || w[1] == "*")) { continue; }
         // two additional symbols in a row (`fr**n*s`): such a name resolves when it stands alone, written canonically, with none of its
         // words bound - the repository's own parser tests use some; everything else about them is outside what works (and is not claimed)
         let adjacent = parts.windows(2).any(|w| is_sym(w[0]) && is_sym(w[1]));
